@@ -37,7 +37,7 @@ func main() {
 		probe()
 		return
 	}
-	r := mc.Start("C04", "model_checking", 85*time.Second, 27*time.Minute)
+	r := mc.Start("C04", "model_checking", 80*time.Second, 27*time.Minute)
 	r.Assumptions = chainops.Assumptions("C04")
 	if r.Replay != "" {
 		chainops.DoReplay(r)
